@@ -17,6 +17,7 @@ PROPS = {
     "C03": {"jobs": [
         rapid("C03a", 5000, 25000, shards=8, race_shards=2, gomaxprocs=[16, 4, 1, 2]),
         rapid("C03b", 60, 300, shards=2),
+        rapid("C03c", 300, 2000, shards=2),
     ]},
     "C04": {"jobs": [
         rapid("C04a", 5000, 25000, shards=8, race_shards=1, gomaxprocs=[16, 4, 1]),
